@@ -727,7 +727,6 @@ class unyt_array(np.ndarray):
                     new_units, self.dtype
                 )
 
-            self.units = new_units
             values = self.d
             # if our dtype is an integer do the following somewhat awkward
             # dance to change the dtype in-place. We can't use astype
@@ -763,6 +762,10 @@ class unyt_array(np.ndarray):
 
             if offset:
                 np.subtract(values, offset, values)
+            # relabel only once the data have been converted: a step that raises
+            # (1-byte integers, bool data, a read-only buffer) must not leave the
+            # old numbers under the new unit
+            self.units = new_units
         else:
             self.convert_to_equivalent(units, equivalence, **kwargs)
 
